@@ -98,6 +98,7 @@ def c19(A, ctx, tier):
     misc.r_sibguard(A, ctx, dict(floor=8))
     misc.r_zerocol(A, ctx, dict(floor=10))
     misc.r_abseps(A, ctx, dict(floor=300))
+    kernels.r_zeroblock(A, ctx, {})
     ctx.assume("finiteness under overflow and rank-deficient non-zero designs are not decided")
     return dict(explanation="degenerate data: every division by a data-derived "
                 "magnitude in solver code is dominated by a non-zero fact; every loop is "
@@ -110,6 +111,7 @@ def c11(A, ctx, tier):
     warm.r_none_deref(A, ctx, dict(floor=1))
     misc.r_grporder(A, ctx, dict(floor=6))
     plumb.r_rowfilter(A, ctx, dict(floor=10))
+    misc.r_grppair(A, ctx, dict(floor=5))
     ctx.assume("stationarity of the fitted coefficients is C01's business; the "
                "docstring-formula <-> class correspondence is not decided")
     return dict(explanation="constructor-argument plumbing of the 12 estimators: every "
@@ -160,6 +162,7 @@ def c10(A, ctx, tier):
     kernels.r_kernel_eq(A, ctx, dict(floor=40))
     kernels.r_csc_helpers(A, ctx, dict(floor=16))
     kernels.r_accessor_eq(A, ctx, dict(floor=20))
+    kernels.r_zeroblock(A, ctx, {})
     ctx.assume("equality 'up to solver tolerance' of converged results is numerical and not decided; "
                "kernel equality is decided on one 3x3 design with structural zeros (symbolic entries), "
                "one epoch, not for every sparsity pattern")
@@ -178,6 +181,9 @@ def c13(A, ctx, tier):
     plumb.r_who(A, ctx, dict(floor=13))
     misc.r_sparsetest(A, ctx, dict(floor=15))
     misc.r_selfdiff(A, ctx, {})
+    extents.r_fullarg(A, ctx, dict(floor=40))
+    extents.r_likedtype(A, ctx, dict(floor=20))
+    misc.r_wscut(A, ctx, dict(floor=3))
     ctx.assume("accepted cells returning finite certified values is numerical (C01/C19)")
     return dict(explanation="every cell of the solver x datafit x penalty x storage x knob "
                 "matrix is classified statically: refused by validation, or accepted with "
@@ -297,6 +303,7 @@ def c09(A, ctx, tier):
     cox.r_cox_global(A, ctx, {})
     kernels.r_csc_helpers(A, ctx, dict(floor=16))
     kernels.r_accessor_eq(A, ctx, dict(floor=12), rule="R-LIPSCHITZ-EQ", select=lambda m: "lipschitz" in m)
+    kernels.r_zeroblock(A, ctx, {})
     ctx.assume("accuracy of the power method in spectral_norm is numerical and not decided; "
                "spectral norms are opaque atoms keyed by the matrix they are taken of")
     return dict(explanation="coordinate / group / global Lipschitz constants are lifted and "
@@ -339,7 +346,7 @@ def c15(A, ctx, tier):
 
 def c20(A, ctx, tier):
     extents.r_idx(A, ctx, dict(floor=150, floor_typed=400))
-    extents.r_slotext(A, ctx, dict(floor=12))
+    extents.r_slotext(A, ctx, dict(floor=17))
     extents.r_slice(A, ctx, dict(floor=12))
     extents.r_bounds(A, ctx, dict(floor=30))
     extents.r_argkind(A, ctx, dict(floor=60))
@@ -348,6 +355,8 @@ def c20(A, ctx, tier):
     kernels.r_csc_helpers(A, ctx, dict(floor=16), rule="R-CSC-BOUNDS")
     kernels.r_accessor_eq(A, ctx, dict(floor=40), rule="R-ACCESSOR-BOUNDS")
     pairing.r_pair_eq(A, ctx, dict(floor=30), rule="R-PAIR-BOUNDS")
+    extents.r_fullarg(A, ctx, dict(floor=40))
+    misc.r_wscut(A, ctx, dict(floor=3))
     misc.r_initialize(A, ctx, dict(floor=6))
     ctx.assume("value-dependent indices (entries of user-supplied grp_indices / CSC indices being "
                "in range) are an input contract and not decided")
